@@ -12,6 +12,7 @@ pub mod rng;
 pub mod scale;
 pub mod sharedref;
 pub mod types;
+pub mod typevar;
 pub mod valloc;
 
 use json::J;
